@@ -67,6 +67,9 @@ func runSolver(ctx context.Context, sp solverSpec, file string, timeoutS int) (v
 
 // solveOne races the solvers on one obligation.
 func solveOne(ob *Obligation, opt solveOpts) {
+	if ob.ExpectSat && opt.TimeoutS > 4 {
+		opt.TimeoutS = 4 // vacuity guard: only a quick `unsat` matters
+	}
 	script := ob.Script(opt.TimeoutS*1000, opt.Models)
 	file := filepath.Join(opt.Dir, sanitize(ob.Name)+".smt2")
 	if err := os.WriteFile(file, []byte(script), 0o644); err != nil {
